@@ -8,6 +8,7 @@ from fdlstatic import cfg as cfg_lib
 from fdlstatic import idmemo
 from fdlstatic.ctx import Ctx
 from fdlstatic.model import AnalysisError, unparse, walk_function, walk_stmts
+from fdlstatic import roles
 from fdlstatic.report import RuleSet
 from fdlstatic.rules import c14, ownrule
 
@@ -301,12 +302,21 @@ def run(ctx: Ctx, rs: RuleSet, tier: str):
   for n in g.nodes():
     if g.kind[n] == 'if':
       t = g.stmt[n].test
-      if isinstance(t, ast.UnaryOp) and isinstance(
-          t.op, ast.Not) and unparse(t.operand) in ('target',
-                                                     'diff_op.target'):
+      # `not <op>.target` directly or through a local holding it; the
+      # branch records an error in the list that is raised at the end
+      tvars = roles.assigned_from(vc, lambda e: isinstance(
+          e, ast.Attribute) and e.attr == 'target')
+      err_lists = roles.assigned_from(vc, lambda e: isinstance(
+          e, ast.List) and not e.elts)
+      if isinstance(t, ast.UnaryOp) and isinstance(t.op, ast.Not) and (
+          (isinstance(t.operand, ast.Name) and t.operand.id in tvars) or
+          (isinstance(t.operand, ast.Attribute) and
+           t.operand.attr == 'target')):
         body = g.stmt[n].body
-        ok = any(isinstance(s, ast.Expr) and 'errors.append' in unparse(s)
-                 for s in body)
+        ok = any(isinstance(s, ast.Expr) and isinstance(s.value, ast.Call) and
+                 isinstance(s.value.func, ast.Attribute) and
+                 s.value.func.attr == 'append' and
+                 unparse(s.value.func.value) in err_lists for s in body)
   raises = [n for n in g.nodes() if isinstance(g.stmt[n], ast.Raise)]
   rs.check(ok and len(raises) >= 2, rule, f'{vc.qualname}:root',
            'a change whose target is the root is an error; collected errors '
